@@ -1701,7 +1701,9 @@ fn unwrap_sum_ty(
     if !payload_ty.is_aggregate()
         && let Some(final_ty) = payload_ty.get_final_ty().into_real_type()
     {
-        assert!(!payload_ty.is_non_zero());
+        // only optionals have a special representation for pointers.
+        // enums and error unions keep them behind a tag like any other payload
+        assert!(!union_ty.is_optional() || !payload_ty.is_non_zero());
 
         Some(
             builder
